@@ -212,8 +212,8 @@ def apply_tamper(W, name, rng):
             return None
         from buidl.script import WitnessScript
         secs = sorted(W["named"](atk, "m/0/%d" % k_).sec() for k_ in range(n))
-        for pi in ps.psbt_ins:
-            pi.witness_script = WitnessScript([0x51] + secs + [0x50 + n, 174])
+        # same quorum as the wallet (so that nothing else about the PSBT looks off), on the first input only
+        ps.psbt_ins[0].witness_script = WitnessScript([0x50 + m] + secs + [0x50 + n, 174])
         ok_inputs = False
     elif name == "input-foreign-xfp":
         pi = ps.psbt_ins[0]
